@@ -153,7 +153,8 @@ fn main() {
         let key: libcnb::data::exec_d::ExecDProgramOutputKey = k.parse().unwrap();
         let other: libcnb::data::exec_d::ExecDProgramOutputKey = "OTHER".parse().unwrap();
         let map = std::collections::HashMap::from([(key, std::env::var("VERIF_EXECD_VALUE").unwrap()), (other, std::env::var("VERIF_EXECD_VALUE2").unwrap())]);
-        libcnb::exec_d::write_exec_d_program_output(libcnb::data::exec_d::ExecDProgramOutput::new(map));
+        // both public ways in: the constructor, and the `From` conversion that write_exec_d_program_output accepts directly
+        if std::env::var("VERIF_EXECD_VIA").as_deref() == Ok("from") { libcnb::exec_d::write_exec_d_program_output(map); } else { libcnb::exec_d::write_exec_d_program_output(libcnb::data::exec_d::ExecDProgramOutput::new(map)); }
         return;
     }
     libcnb::libcnb_runtime(&TB);
